@@ -4,6 +4,7 @@ import (
 	"cmp"
 	"fmt"
 	"iter"
+	"os"
 	"reflect"
 	"slices"
 	"sort"
@@ -39,6 +40,15 @@ func MapKeys[M ~map[K]V, K comparable, V any](m M) []K {
 // Channels are modelled inside the scheduler: the real channel object is only an identity (and is kept in sync
 // for close, so that uninstrumented code selecting on a Done() channel still sees it).  All sends/receives of
 // instrumented code go through Send/Recv/Recv2/Close/RangeChan/Sel.
+
+// fatalHarness reports a broken invariant of the channel model.  It must not be a panic: code under test may recover
+// panics (the read path does, on purpose) and would turn a failure of the machinery into an observation.
+func fatalHarness(msg string) {
+	fmt.Fprintf(os.Stderr, "HARNESS-ERROR: %s\n", msg)
+	os.Exit(2)
+}
+
+var debugChan = os.Getenv("SCHED_DEBUG_CHAN") != ""
 
 type chanState struct {
 	id     int
@@ -123,7 +133,9 @@ func (e *Exec) caseReady(t *Thread, c selCase) bool {
 		if s.closed || len(s.buf) < s.cap {
 			return true
 		}
-		return e.partner(t, s, false) != nil
+		// a full buffer blocks the sender even when a receiver has a pending operation: that receiver will take the
+		// oldest buffered value first.  Only an unbuffered channel hands the value over to a waiting receiver.
+		return s.cap == 0 && e.partner(t, s, false) != nil
 	}
 	if len(s.buf) > 0 || s.closed {
 		return true
@@ -178,7 +190,7 @@ func (e *Exec) doSel(op *selOp) (int, any, bool) {
 		if op.hasDefault {
 			return -1, nil, false
 		}
-		panic(HarnessError{"sched: select scheduled with no ready case"})
+		fatalHarness("sched: select scheduled with no ready case")
 	}
 	pick := ready[0]
 	if len(ready) > 1 {
@@ -187,6 +199,9 @@ func (e *Exec) doSel(op *selOp) (int, any, bool) {
 	}
 	c := op.cases[pick]
 	s := c.ch
+	if debugChan {
+		fmt.Fprintf(os.Stderr, "  [chan] thread %d %s ch%d cap=%d buf=%d closed=%v send=%v\n", t.ID, t.Name, s.id, s.cap, len(s.buf), s.closed, c.send)
+	}
 	if c.send {
 		if s.closed {
 			panic("send on closed channel")
@@ -205,7 +220,7 @@ func (e *Exec) doSel(op *selOp) (int, any, bool) {
 			s.buf = append(s.buf, c.val)
 			return pick, nil, false
 		}
-		panic(HarnessError{"sched: send scheduled but cannot proceed"})
+		fatalHarness("sched: send scheduled but cannot proceed")
 	}
 	// receive
 	if len(s.buf) > 0 {
@@ -234,7 +249,8 @@ func (e *Exec) doSel(op *selOp) (int, any, bool) {
 	if s.closed {
 		return pick, nil, false
 	}
-	panic(HarnessError{"sched: receive scheduled but cannot proceed"})
+	fatalHarness("sched: receive scheduled but cannot proceed")
+	return -1, nil, false
 }
 
 // Send is `ch <- v`.
